@@ -8,7 +8,7 @@ POOLS = {
     'PROP': ['(or p q)', '(not p)', '(not q)', '(or (not p) r)', '(not r)', '(= p (not q))'],
     'QF_UF': ['(= a c)', '(distinct a b c)', '(or p (= a b))', '(not (= (f a) (f b)))', '(not p)', '(or (not p) (= b c))'],
     'QF_LRA': ['(> x 1)', '(<= (* 2 x) 2)', '(or p (< x y))', '(or (not p) (< x 0))', '(>= x (+ y 1))'],
-    'QF_LIA': ['(= x (* 2 y))', '(= (mod x 2) 1)', '(> x y)', '(or (> y x) (< x 0))', '(= (+ (* 2 x) (* 2 z)) 7)'],
+    'QF_LIA': ['(and (<= 0 x) (<= x 5) (= x (* 2 y)))', '(= (mod x 2) 1)', '(> x y)', '(or (> y x) (< x 0))', '(and (<= 0 z) (<= z 9) (= (+ (* 2 x) (* 2 z)) 7))'],
     'QF_IDL': ['(<= (- x y) (- 1))', '(<= (- y x) 0)', '(<= (- y z) (- 1))', '(< (- z x) 2)', '(or (<= (- z x) 1) (<= (- z x) 2147483648))'],
     'QF_RDL': ['(< (- x y) 0)', '(<= (- y x) 0)', '(<= (- y z) (/ 1 2))', '(or (< (- z x) 0) (<= (- z x) (- (/ 1 2))))', '(> (- y x) 3)'],
     'QF_UFLRA': ['(<= x y)', '(<= y x)', '(not (= (f x) (f y)))', '(or (> (f x) 0) p)', '(< (f y) 0)'],
@@ -205,7 +205,12 @@ def run_stage_histories(chk, prop, tier):
     if prop != 'C03':
         tasks = [(prop, f, 7, (), s, 8, 3) for f in fams for s in range(8)]
         chk.run_stage('histories L<=7 over {push,pop,assert x3,check}, 3-assertion micro-pools, default options', tasks, hist_task)
+        tasks = [(prop, f, 8, (), s, 8, 2) for f in fams for s in range(8)]
+        chk.run_stage('histories L<=8 over {push,pop,assert x2,check}, 2-assertion micro-pools, default options', tasks, hist_task)
     if tier == 'thorough':
+        if prop != 'C03':
+            tasks = [(prop, f, 9, (), s, 32, 2) for f in fams for s in range(32)]
+            chk.run_stage('histories L<=9, 2-assertion micro-pools, default options', tasks, hist_task)
         tasks = [(prop, f, 6, (), s, 32) for f in fams for s in range(32)]
         chk.run_stage('histories L<=6, 4-assertion micro-pools, default options', tasks, hist_task)
         if prop != 'C03':
